@@ -90,9 +90,22 @@ def run(ck, repo: Repo, tier: str):
         v = nf.poly(l.ast.value, sc, l.id).canon() if isinstance(l.ast, ast.Assign) else "?"
         ok = v == "min(1 + self.current_len, self.buffer_size)" and not cfg.control_deps(l.id)
         ck.ob("R1-ring-law", site, "length-saturates", ok, f"current_len' = {v}", "" if ok else "must be min(current_len + 1, buffer_size), unconditionally", loc(mi, l.ast))
-    # R4 allocation
-    ck.ob("R4-allocation", site, "single-allocation", len(allocs) == 1, f"{len(allocs)} allocation statement(s)", "" if len(allocs) == 1 else "storage must be allocated in one place", where)
-    for n, s in allocs:
+    # R4 allocation (directly in add_sample, or in a helper method called from it)
+    alloc_ctx = [(cfg, n, s, n) for n, s in allocs]
+    if not allocs:
+        for n in cfg.nodes:
+            if n.kind == "stmt" and isinstance(n.ast, ast.Expr) and isinstance(n.ast.value, ast.Call) and isinstance(n.ast.value.func, ast.Attribute) and dotted(n.ast.value.func.value) == "self":
+                hm = repo.method(cq, n.ast.value.func.attr)
+                if hm:
+                    hfn = hm[1]
+                    hfn._module = mi
+                    hcfg = nf.cfg_of(hfn)
+                    for m in hcfg.nodes:
+                        if m.kind == "stmt" and isinstance(m.ast, ast.Assign) and isinstance(m.ast.targets[0], ast.Subscript) and dotted(m.ast.targets[0].value) == "self.buffer":
+                            alloc_ctx.append((hcfg, m, m.ast, n))
+    ck.need(len(alloc_ctx) >= 1, f"{site}: storage allocation not found (unrecognised idiom)")
+    ck.ob("R4-allocation", site, "single-allocation", len(alloc_ctx) == 1, f"{len(alloc_ctx)} allocation statement(s)", "" if len(alloc_ctx) == 1 else "storage must be allocated in one place", where)
+    for acfg, an, s, n in alloc_ctx:
         g = [t for b, lab in cfg.control_deps(n.id) if cfg.nodes[b].kind == "test" for t, v in cfg._lits(cfg.nodes[b].ast.test, lab, b) if v]
         v = nf.poly(s.value, Scope(None, mi, {}, site), None).canon()
         ok = "self.current_len == 0" in g and v == "empty((self.buffer_size) + v.shape, dtype=self.buffer[k].dtype)"
@@ -168,6 +181,16 @@ def run(ck, repo: Repo, tier: str):
     body = [ast.unparse(s) for s in fn.body if not (isinstance(s, ast.Expr) and isinstance(s.value, ast.Constant))]
     ok = body == ["self.buffers[self.selected_task].add_sample(*args, **kwargs)", "self.active_buffers.add(self.selected_task)"]
     ck.ob("R5-task-routing", f"{cq}.add_sample", "routes-to-selected-task", ok, " ; ".join(body), "" if ok else "additions must go to buffers[selected_task] only and mark exactly that task active", loc(fn._module, fn))
+    # who may change the active set: only add_sample (and __init__)
+    mcls = repo.cls(cq)
+    for meth in mcls.body:
+        if isinstance(meth, ast.FunctionDef) and meth.name not in ("add_sample", "__init__"):
+            for x in ast.walk(meth):
+                hit = (isinstance(x, ast.Call) and isinstance(x.func, ast.Attribute) and dotted(x.func.value) == "self.active_buffers" and x.func.attr in ("add", "update", "discard", "remove", "clear")) or \
+                      (isinstance(x, (ast.Assign, ast.AugAssign)) and dotted(x.targets[0] if isinstance(x, ast.Assign) else x.target) == "self.active_buffers")
+                if hit:
+                    ck.ob("R5-task-routing", f"{cq}.{meth.name}", "active-set-owner", False, short(x, 60), "a task becomes active only when a transition is added to it: marking it elsewhere lets sample_batch draw a task without data", loc(mcls._module, x))
+    ck.ob("R5-task-routing", cq, "active-set-owner", True, "active_buffers is changed only by add_sample", "", loc(mcls._module, mcls))
     fn = _m(repo, cq, "select_task")
     cfg = nf.cfg_of(fn)
     sets = [n for n in cfg.nodes if n.kind == "stmt" and isinstance(n.ast, ast.Assign) and dotted(n.ast.targets[0]) == "self.selected_task"]
@@ -196,6 +219,8 @@ def run(ck, repo: Repo, tier: str):
 _F = "rl_blox/blox/replay_buffer.py"
 _RING = "        for k, v in sample.items():\n            self.buffer[k][self.insert_idx] = v\n        self.insert_idx = (self.insert_idx + 1) % self.buffer_size\n        self.current_len = min(self.current_len + 1, self.buffer_size)\n\n    def sample_batch(\n        self, batch_size: int, rng: np.random.Generator\n    ) -> tuple[jnp.ndarray]:"
 MUTANTS = [
+    {"id": "c02-mt-active-on-select", "file": _F, "rule": "R5", "find": "        if 0 <= task_id < len(self.buffers):\n            self.selected_task = task_id\n", "replace": "        if 0 <= task_id < len(self.buffers):\n            self.selected_task = task_id\n            self.active_buffers.add(task_id)\n"},
+    {"id": "c02-store-by-position", "file": _F, "rule": "R1", "nth": 0, "find": "        for k, v in sample.items():\n            self.buffer[k][self.insert_idx] = v\n        self.insert_idx", "replace": "        for storage, v in zip(self.buffer.values(), sample.values(), strict=True):\n            storage[self.insert_idx] = v\n        self.insert_idx"},
     {"id": "c02-advance-before-store", "file": _F, "rule": "R1", "find": _RING, "replace": _RING.replace("        for k, v in sample.items():\n            self.buffer[k][self.insert_idx] = v\n        self.insert_idx = (self.insert_idx + 1) % self.buffer_size\n", "        self.insert_idx = (self.insert_idx + 1) % self.buffer_size\n        for k, v in sample.items():\n            self.buffer[k][self.insert_idx] = v\n")},
     {"id": "c02-advance-plus-two", "file": _F, "rule": "R1", "find": _RING, "replace": _RING.replace("(self.insert_idx + 1) % self.buffer_size", "(self.insert_idx + 2) % self.buffer_size")},
     {"id": "c02-advance-mod-len", "file": _F, "rule": "R1", "find": _RING, "replace": _RING.replace("(self.insert_idx + 1) % self.buffer_size\n        self.current_len = min", "(self.insert_idx + 1) % max(self.current_len, 1)\n        self.current_len = min")},
@@ -212,7 +237,9 @@ MUTANTS = [
     {"id": "c02-mt-priority-selected", "file": _F, "rule": "R5", "find": "        self.buffers[self.sampled_task_idx].update_priority(priority)", "replace": "        self.buffers[self.selected_task].update_priority(priority)"},
     {"id": "c02-len-capacity", "file": _F, "rule": "R6", "nth": 0, "find": "        \"\"\"Return current number of stored transitions in the replay buffer.\"\"\"\n        return self.current_len", "replace": "        \"\"\"Return current number of stored transitions in the replay buffer.\"\"\"\n        return self.buffer_size"},
 ]
+_ALLOC = "        if self.current_len == 0:\n            for k, v in sample.items():\n                assert k in self.buffer, f\"{k} not in {self.buffer.keys()}\"\n                self.buffer[k] = np.empty(\n                    (self.buffer_size,) + np.asarray(v).shape,\n                    dtype=self.buffer[k].dtype,\n                )\n        for k, v in sample.items():\n            self.buffer[k][self.insert_idx] = v\n        self.insert_idx = (self.insert_idx + 1) % self.buffer_size\n        self.current_len = min(self.current_len + 1, self.buffer_size)\n\n    def sample_batch(\n        self, batch_size: int, rng: np.random.Generator\n    ) -> tuple[jnp.ndarray]:"
 BENIGN = [
+    {"id": "c02-b-alloc-helper", "file": _F, "find": _ALLOC, "replace": "        if self.current_len == 0:\n            self._allocate(sample)\n        for k, v in sample.items():\n            self.buffer[k][self.insert_idx] = v\n        self.insert_idx = (self.insert_idx + 1) % self.buffer_size\n        self.current_len = min(self.current_len + 1, self.buffer_size)\n\n    def _allocate(self, sample):\n        for k, v in sample.items():\n            assert k in self.buffer\n            self.buffer[k] = np.empty(\n                (self.buffer_size,) + np.asarray(v).shape,\n                dtype=self.buffer[k].dtype,\n            )\n\n    def sample_batch(\n        self, batch_size: int, rng: np.random.Generator\n    ) -> tuple[jnp.ndarray]:"},
     {"id": "c02-b-len-first", "file": _F, "find": _RING, "replace": _RING.replace("        self.insert_idx = (self.insert_idx + 1) % self.buffer_size\n        self.current_len = min(self.current_len + 1, self.buffer_size)", "        self.current_len = min(self.current_len + 1, self.buffer_size)\n        self.insert_idx = (self.insert_idx + 1) % self.buffer_size")},
     {"id": "c02-b-advance-commuted", "file": _F, "find": _RING, "replace": _RING.replace("(self.insert_idx + 1) % self.buffer_size", "(1 + self.insert_idx) % self.buffer_size")},
 ]
